@@ -66,6 +66,34 @@ var hashHeavy = []string{
 	"hr%[1]d = [getattr(time.now(), q) for q in dir(time.now()) if q in (\"year\", \"month\", \"unix\", \"nanosecond\")] + [str(getattr(time.now() - time.now(), q)) for q in dir(time.now() - time.now())]\nprint(hr%[1]d, time.parse_duration(\"1h5m\"), time.time(year=2024, month=2, day=29), time.from_timestamp(1700000000, 5), time.is_valid_timezone(\"UTC\"))\n",
 }
 
+// c03errorSites: final statements that fail with a message naming several
+// things at once (duplicate / unexpected / missing arguments, keys, fields).
+var c03errorSites = []string{
+	"es_r = dict(srcs=[], deps=[], name=1, **{\"deps\": 1, \"name\": 3, \"srcs\": 2})\n",
+	"es_d = {}\nes_d.update(zeta=1, alpha=2, mid=3, **{\"mid\": 0, \"alpha\": 1, \"zeta\": 2})\n",
+	"def es_f(a, b, c, *, k1, k2):\n    return a\nes_r = es_f()\n",
+	"def es_f(a, b=2):\n    return a\nes_r = es_f(1, **{\"zz\": 1, \"yy\": 2, \"xx\": 3, \"a-long-keyword-name-over-12\": 4})\n",
+	"def es_f(a, b, c):\n    return a\nes_r = es_f(1, 2, 3, **{\"c\": 1, \"b\": 2, \"a\": 3})\n",
+	"def es_f(*, k_one, k_two, k_three):\n    return 1\nes_r = es_f(**{\"k_four\": 4, \"k_five\": 5})\n",
+	"es_r = struct(alpha=1, beta=2, gamma=3, **{\"gamma\": 0, \"beta\": 1, \"alpha\": 2})\n",
+	"es_r = \"%(first)s %(second)s %(third)s\" % {\"other-key-a-long-one\": 1, \"zz\": 2}\n",
+	"es_r = \"{first} {second} {third}\".format(**{\"fourth-key-a-long-one\": 1, \"zz\": 2})\n",
+	"es_r = json.encode({\"k-one-long-enough-key\": len, \"a\": print, \"m\": [dir]})\n",
+	"es_r = json.encode(struct(zz=len, aa=print, mm_long_field_name_here=dir))\n",
+	"es_r = getattr(struct(alpha=1, alphb=2, alphc=3, alphd=4), \"alph\")\n",
+	"es_r = {\"a-long-string-over-12-bytes\": 1, \"b\": 2, (1, 2): 3}[\"missing-key-that-is-long\"]\n",
+	"es_r = sorted([\"b\", 1, None, \"a-long-string-over-12-bytes\", (1,)])\n",
+	"es_r = set([\"a-long-string-over-12-bytes\", \"b\", \"c\"]).union([[1], [2]])\n",
+	"es_r = dict([(\"a\", 1), (\"b-long-string-over-12-bytes\", 2), ([], 3), ({}, 4)])\n",
+	"es_r = fail(\"stop:\", {\"a-long-string-over-12-bytes\": 1, \"b\": [2]}, struct(z=1, a=2), [dir, len])\n",
+	"es_r = min({\"a-long-string-over-12-bytes\": 1, 2: 3, None: 4})\n",
+	"def es_f(x, y):\n    return x\nes_r = [es_f(*q) for q in [(1, 2), {\"a-long-string-over-12-bytes\": 1, \"b\": 2, \"c\": 3}]]\n",
+	"es_a, es_b = {\"a-long-string-over-12-bytes\": 1, \"b\": 2, \"c\": 3}\n",
+	"es_r = json.decode('{\"a-long-string-over-12-bytes\": 1, \"b\": 2, \"a-long-string-over-12-bytes\": 3, \"b\": }')\n",
+	"es_r = time.time(yeer=1, munth=2, dai=3)\n",
+	"es_r = math.pow(**{\"y\": 1, \"x\": 2, \"zz\": 3, \"ww\": 4})\n",
+}
+
 func (c03) Generate(seed uint64, i int, tier string) *Scenario {
 	r := NewRng(mix64(seed, uint64(i)) ^ 0xc03)
 	sc := &Scenario{Prop: "C03", Family: "worlds", Seed: seed, Index: i, D: RandomDialect(r), N: map[string]int64{}}
@@ -127,6 +155,14 @@ func (c03) Generate(seed uint64, i int, tier string) *Scenario {
 			typo = name[:len(name)-1]
 		}
 		prog = append(prog, fmt.Sprintf("def typo_site(v):\n    return v.%s\ntypo_result = typo_site(struct(%s=1, %s=\"two\", %s=[3]))\n", typo, fs[0], fs[1], fs[2]))
+	}
+	if r.Chance(1, 4) {
+		// end in an error whose message enumerates names or entries: whatever
+		// order they are reported in must not depend on a Go map or on hashing
+		site := c03errorSites[r.Intn(len(c03errorSites))]
+		if sc.D.Set || !strings.Contains(site, "set(") {
+			prog = append(prog, site)
+		}
 	}
 	sc.Prog = prog
 	// other programs for world (d)
